@@ -100,6 +100,18 @@ def uncommit(
             new_revision_id = _mod_revision.NULL_REVISION
 
         if not dry_run:
+            if not _mod_revision.is_null(new_revision_id):
+                parents = [new_revision_id]
+            else:
+                parents = []
+            if tree is not None:
+                parents.extend(reversed(pending_merges))
+            if branch.supports_tags() and not keep_tags:
+                # Remove the tags before moving the tips: setting the last
+                # revision clears the branch's cached master branch, and
+                # deleting a tag in a bound branch would then open (and try
+                # to lock) a second instance of the master we hold locked.
+                remove_tags(branch, graph, old_tip, parents)
             if master is not None:
                 master.set_last_revision_info(new_revno, new_revision_id)
             branch.set_last_revision_info(new_revno, new_revision_id)
@@ -116,15 +128,8 @@ def uncommit(
                 hook(
                     hook_local, hook_master, old_revno, old_tip, new_revno, hook_new_tip
                 )
-            if not _mod_revision.is_null(new_revision_id):
-                parents = [new_revision_id]
-            else:
-                parents = []
             if tree is not None:
-                parents.extend(reversed(pending_merges))
                 tree.set_parent_ids(parents)
-            if branch.supports_tags() and not keep_tags:
-                remove_tags(branch, graph, old_tip, parents)
     finally:
         for item in reversed(unlockable):
             item.unlock()
